@@ -48,7 +48,11 @@ class Translator:
         branch_by_solver: bool = False,
         name_classes=(),
         opaque_classes=(),
+        uf_classes=(),
+        opaque_real=False,
     ):
+        self.uf_classes = set(uf_classes)
+        self.opaque_real = opaque_real
         self.branch_by_solver = branch_by_solver
         self.name_classes = set(name_classes)
         self.opaque_classes = set(opaque_classes)
@@ -153,6 +157,11 @@ class Translator:
                     base = ang.unit if k > 0 else ang.unit.conjugate()
                     out = out * base ** abs(k)
                     continue
+                mapped = self.symbol_values.get(term)
+                if isinstance(mapped, V) and set(mapped.c) == {B1} and not mapped.den:
+                    zt = mapped.c[B1][0]
+                    if not isinstance(zt, Fraction) and z3.is_const(zt) and zt.decl().kind() == z3.Z3_OP_UNINTERPRETED:
+                        name = str(zt)  # the angle is the solver variable this symbol is mapped to (renamings)
                 if name in self.unit_symbols:
                     if c.denominator != 1:
                         raise Unsupported(f"non-integer multiple of unit symbol {name}")
@@ -320,6 +329,18 @@ class Translator:
         clsname = type(e).__name__
         if isinstance(e, sp.factorial) and e.args[0].is_Integer:
             return ctx.const(int(sp.factorial(int(e.args[0]))))
+        if clsname in self.uf_classes:
+            # uninterpreted function of the translated SymPy arguments (plus the non-SymPy attributes in its name)
+            extra = ""
+            try:
+                import dataclasses
+
+                extra = ",".join(f"{f.name}={getattr(e, f.name, None)!r}" for f in dataclasses.fields(e) if getattr(e, f.name, None) not in e.args)
+            except TypeError:
+                pass
+            re_ = self.uf_apply(f"{clsname}[{extra}].re", [self.tr(a) for a in e.args], e)
+            im_ = self.uf_apply(f"{clsname}[{extra}].im", [self.tr(a) for a in e.args], e)
+            return re_ + self.ctx.I() * im_
         if clsname in self.opaque_classes:
             return self._opaque_node(e)
         if clsname in self.name_classes:
@@ -370,7 +391,8 @@ class Translator:
         hit = table.get(e)
         if hit is None:
             k = len(table)
-            hit = self.ctx.cvar(f"opaque{k}:{type(e).__name__}")
+            nm = f"opaque{k}:{type(e).__name__}"
+            hit = self.ctx.var(nm) if self.opaque_real else self.ctx.cvar(nm)
             table[e] = hit
         return hit
 
